@@ -310,6 +310,12 @@ func (r *AuthnRequest) Redirect(relayState string, sp *ServiceProvider) (*url.UR
 
 	// We can't depend on Query().set() as order matters for signing
 	query := rv.RawQuery
+	// the signature covers only SAMLRequest=...[&RelayState=...]&SigAlg=..., not
+	// query parameters that are already part of the IdP's endpoint URL
+	signedFrom := len(query)
+	if signedFrom > 0 {
+		signedFrom++ // the "&" that joins the two parts
+	}
 	if len(query) > 0 {
 		query += "&SAMLRequest=" + url.QueryEscape(requestStr.String())
 	} else {
@@ -327,7 +333,7 @@ func (r *AuthnRequest) Redirect(relayState string, sp *ServiceProvider) (*url.UR
 			return nil, err
 		}
 
-		sig, err := signingContext.SignString(query)
+		sig, err := signingContext.SignString(query[signedFrom:])
 		if err != nil {
 			return nil, err
 		}
